@@ -22,6 +22,7 @@ from lib import Session, TT, check_invariants, reachable, SECTIONS_L3
 
 import dd.autoref as _auto   # noqa: E402
 import dd.bdd as _bdd        # noqa: E402
+import dd._copy as _dcopy     # noqa: E402
 
 SECTIONS_A = SECTIONS_L3 + ('handles',)
 
@@ -243,6 +244,13 @@ def op_auto(impl, mid, op, a):
         return _store(impl, outs[0], _pycopy.copy(_h(impl, a[0])))
     if op == 'f_eq':
         return show_bool(_h(impl, a[0]) == _h(impl, a[1]))
+    if op == 'f_cmp_other':
+        f = _h(impl, a[1])
+        x = None if a[2] == 'None' else (7 if a[2] == 'int' else 'a')
+        return show_bool({'eq': lambda: f == x, 'ne': lambda: f != x, 'le': lambda: f <= x,
+                          'lt': lambda: f < x}[a[0]]())
+    if op == 'f_xor':
+        return str((_h(impl, a[0]) ^ _h(impl, a[1])).node)
     if op == 'f_ne':
         return show_bool(_h(impl, a[0]) != _h(impl, a[1]))
     if op == 'f_le':
@@ -287,7 +295,7 @@ AUTO_OPS = [
     'a_preimage', 'a_succ', 'a_contains', 'a_count', 'a_support', 'a_support_levels', 'a_pick_iter',
     'a_to_expr', 'a_incref', 'a_decref', 'a_drop', 'a_gc', 'a_reorder', 'a_configure', 'a_declare',
     'a_add_var', 'a_len', 'a_shutdown', 'a_copy_bdd_same', 'a_copy_same', 'a_copy', 'a_copy_bdd',
-    'a_copy_vars', 'f_apply', 'f_copy', 'f_eq', 'f_ne', 'f_le', 'f_lt', 'f_low', 'f_high', 'f_level', 'f_var',
+    'a_copy_vars', 'f_apply', 'f_copy', 'f_cmp_other', 'f_xor', 'f_eq', 'f_ne', 'f_le', 'f_lt', 'f_low', 'f_high', 'f_level', 'f_var',
     'f_ref', 'f_negated', 'f_int', 'f_len', 'f_support', 'f_to_expr', 'a_state']
 
 
@@ -299,6 +307,85 @@ def _mk(op):
 
 for _op in AUTO_OPS:
     implmod.EXT_LINE_OPS[_op] = _mk(_op)
+
+
+# `dd._copy.copy_bdd(u, target)` / `copy_bdds_from(roots, target)` over two autoref managers.
+# Protocol: `a_xcopy <hu> <dst> [log] -> h`, `a_xcopy_from <hu,..> <dst> [log] -> h h ..`.
+# Answer: the node(s); in `copy_bdds_from` a result that is the SAME `Function` object as the
+# earlier result `j` is written `<node>@<j>` and gets no handle id of its own; with `log` the
+# source's `_ref` seen at every `target.var(...)` of the recursion, as differences from its value
+# before the call (`k:d;k:d/...`): the source's counters move DURING the call (`~u`, `u.low`, `u.high`
+# are Functions of the source) and are back afterwards.
+
+class _SrcLog:
+    def __init__(self, src, dst, on):
+        self.src, self.dst, self.on, self.log = src, dst, on, []
+
+    def __enter__(self):
+        if self.on:
+            ref0 = dict(self.src._bdd._ref)
+            orig = self.dst.var
+            srcm = self.src._bdd
+            log = self.log
+
+            def hooked(name):
+                log.append(';'.join(f'{k}:{v - ref0.get(k, 0)}' for k, v in sorted(srcm._ref.items())
+                                    if v != ref0.get(k, 0)))
+                return orig(name)
+            self.dst.var = hooked
+        return self
+
+    def __exit__(self, *exc):
+        if self.on:
+            del self.dst.var
+        return False
+
+    def suffix(self):
+        return (' log=' + '/'.join(self.log)) if self.on else ''
+
+
+def _xcopy_args(impl, mid, a):
+    a, outs = _split_outs(a)
+    on = bool(a) and a[-1] == 'log'
+    if on:
+        a = a[:-1]
+    return a, outs, _SrcLog(_A(impl)[mid], _A(impl)[int(a[1])], on)
+
+
+def _line_xcopy(impl, mid, a):
+    a, outs, lg = _xcopy_args(impl, mid, a)
+    with lg:
+        r = _dcopy.copy_bdd(_h(impl, a[0]), _A(impl)[int(a[1])])
+    return _store(impl, outs[0], r) + lg.suffix()
+
+
+def _line_xcopy_from(impl, mid, a):
+    a, outs, lg = _xcopy_args(impl, mid, a)
+    with lg:
+        rs = _dcopy.copy_bdds_from([_h(impl, x) for x in implmod.split1(a[0])], _A(impl)[int(a[1])])
+    out = []
+    for i, (hid, r) in enumerate(zip(outs, rs)):
+        j = next(k for k in range(i + 1) if rs[k] is r)
+        out.append(_store(impl, hid, r) if j == i else f'{r.node}@{j}')
+    rs = r = None
+    return ','.join(out) + lg.suffix()
+
+
+implmod.EXT_LINE_OPS['a_xcopy'] = _line_xcopy
+implmod.EXT_LINE_OPS['a_xcopy_from'] = _line_xcopy_from
+
+
+def xcopy_nodes(ans):
+    """The nodes of an `a_xcopy` / `a_xcopy_from` answer (`None` per result when it raised) and the
+    alias index of each."""
+    if not ans.startswith('ok '):
+        return None
+    body = ans[3:].split(' ')[0]
+    out = []
+    for t in body.split(','):
+        n, _, j = t.partition('@')
+        out.append((int(n), int(j) if j else None))
+    return out
 
 
 # ---------------------------------------------------------------------------
@@ -477,7 +564,15 @@ class AHistory:
             else:
                 self.call(mid, 'f_apply', rng.choice(F_BIN), P(), P(), outs=[self.fresh()])
         elif k == 'cmp':
-            self.call(mid, rng.choice(['f_eq', 'f_ne', 'f_le', 'f_lt', 'f_le', 'f_lt']), P(), P())
+            r = rng.random()
+            if r < 0.1:
+                # a non-`Function` operand: `== None` / `!= None` answer, everything else raises
+                self.call(mid, 'f_cmp_other', rng.choice(['eq', 'ne', 'le', 'lt']), P(),
+                          rng.choice(['None', 'None', 'int', 'str']))
+            elif r < 0.15:
+                self.call(mid, 'f_xor', P(), P())    # no `__xor__`: TypeError
+            else:
+                self.call(mid, rng.choice(['f_eq', 'f_ne', 'f_le', 'f_lt', 'f_le', 'f_lt']), P(), P())
         elif k == 'let' and names:
             r = rng.random()
             vs = rng.sample(names, rng.randint(1, min(3, len(names))))
@@ -755,6 +850,126 @@ def _copy_probe(ctx):
         QUIET[0] -= 1
 
 
+def xcopy_histories(ctx, n_max, floor_s):
+    """`dd._copy.copy_bdd` / `copy_bdds_from` between two autoref managers with different orders:
+    the target with dynamic reordering ENABLED and a low `_last_len` (the reordering fires inside
+    `target.var` / `target.ite`, in the middle of the recursion, while the intermediate results are
+    protected only by their `Function`s), or not enabled; roots with DUPLICATES (the memo returns the
+    same `Function` object again), COMPLEMENTED roots (`~r`: a new object), CONSTANT roots; sources
+    whose variables the target does not all declare (the call raises in the middle).  Oracles: the
+    copies denote the same functions of the variable names; counts of BOTH managers = stored edges
+    + live `Function`s after the call; the source's `_ref` after the call is what it was before;
+    exact state of both managers, the aliasing of the results and the source's `_ref` at every
+    `target.var(...)` DURING the call compared with the model."""
+    rng = ctx.rng
+    n = 0
+    for k in range(n_max):
+        if ctx.time_left() < floor_s:
+            ctx.notes.append('xcopy histories cut by time budget')
+            break
+        names = UNIVERSE[:rng.randint(2, 5)]
+        h = AHistory(ctx, names, nmgr=2, every_state=False)
+        w = dict(var=5, const=1, apply=9, ite=2, fop=4, drop=2, gc=1)
+        for _ in range(rng.randint(6, 30)):
+            h.step(w, 0)
+        for _ in range(rng.randint(0, 5)):
+            h.step(w, 1)
+        if rng.random() < 0.15:
+            # a variable the target does not declare
+            free = [v for v in UNIVERSE if v not in h.b(0).vars]
+            h.call(0, 'a_declare', free[0])
+            x = h.fresh()
+            h.call(0, 'a_var', free[0], outs=[x])
+            if h.handles_of(0):
+                h.call(0, 'a_apply', 'xor', f'h{x}', f'h{h.pick(0)}', outs=[h.fresh()])
+        dyn = rng.random() < 0.7
+        if dyn:
+            h.call(1, 'a_configure', 1)
+            h.call(1, 'set_last_len', rng.randint(1, 3))
+        for _ in range(rng.randint(1, 4)):
+            if h.bad:
+                break
+            hs0 = h.handles_of(0)
+            if not hs0:
+                break
+            b0, b1 = h.b(0), h.b(1)
+            ref0 = dict(b0._ref)
+            if dyn and rng.random() < 0.5:
+                h.call(1, 'set_last_len', rng.randint(1, 2))
+            if rng.random() < 0.4:
+                xs = [rng.choice(hs0)]
+                outs = [h.fresh()]
+                ans = h.s.op(0, 'a_xcopy', f'h{xs[0]}', 1, 'log', '->', f'h{outs[0]}')
+                opname = 'a_xcopy'
+            else:
+                pool = list(hs0)
+                # complements and constants among the roots
+                for _ in range(rng.randint(0, 2)):
+                    t = h.fresh()
+                    h.call(0, 'f_apply', 'not', f'h{rng.choice(hs0)}', outs=[t])
+                    pool.append(t)
+                if rng.random() < 0.5:
+                    pool.append(h.new_const(0))
+                ref0 = dict(b0._ref)
+                xs = [rng.choice(pool) for _ in range(rng.randint(1, 6))]
+                if rng.random() < 0.6:
+                    xs += [rng.choice(xs) for _ in range(rng.randint(1, 3))]   # duplicates
+                    rng.shuffle(xs)
+                outs = [h.fresh() for _ in xs]
+                ans = h.s.op(0, 'a_xcopy_from', ','.join(f'h{x}' for x in xs), 1, 'log', '->',
+                             *[f'h{o}' for o in outs])
+                opname = 'a_xcopy_from'
+            ctx.count('op:' + opname)
+            nodes = xcopy_nodes(ans)
+            if nodes is not None:
+                for o, (r, al) in zip(outs, nodes):
+                    if al is None:
+                        h._register(o, 1, r)
+            h.after(0, opname, ans, state=False)
+            h.after(1, opname, ans, state=False)
+            ctx.evaluations += 1
+            if dict(b0._ref) != ref0:
+                ctx.violation('dd._copy.copy_bdd leaves the reference counts of the SOURCE manager changed', dict(
+                    got=ans, lines=list(h.s.lines), tags=dict(call='_copy.copy_bdd', symptom='source-ref')))
+            if nodes is not None:
+                for x, (r, al) in zip(xs, nodes):
+                    want = TT(b0, UNIVERSE).of(h.live[x][1])
+                    if TT(b1, UNIVERSE).of(r) != want:
+                        ctx.violation('dd._copy.copy_bdd gives another function of the variable names', dict(
+                            got=ans, lines=list(h.s.lines), tags=dict(call='_copy.copy_bdd')))
+                    if al is not None and (h.live[xs[al]][1] != h.live[x][1] or h.live[x][1] < 0):
+                        ctx.violation('copy_bdds_from returns one Function object for two different roots', dict(
+                            got=ans, lines=list(h.s.lines), tags=dict(call='_copy.copy_bdd', symptom='alias')))
+            elif set(b0.vars) <= set(b1.vars):
+                ctx.violation('dd._copy.copy_bdd raises although the target declares every variable', dict(
+                    got=ans, lines=list(h.s.lines), tags=dict(call='_copy.copy_bdd', symptom='raises')))
+            h.s.op(0, 'a_state')
+            h.s.op(1, 'a_state')
+        if not h.bad:
+            h.end(0)
+            h.end(1)
+        ctx.case(('xcopy', k, dyn, tuple(names), len(h.s.lines)))
+        h.finish('C08/C11 dd._copy.copy_bdd over autoref')
+        n += 1
+    ctx.count('histories:xcopy', n)
+
+
+def extra_C11_xcopy(ctx):
+    """The same generator under C11 (replayed on `ddvauto`)."""
+    saved = ctx.driver
+    ctx.flush_model()
+    ctx.driver = 'ddvauto'
+    _build_driver()
+    old_hook = sys.unraisablehook
+    sys.unraisablehook = _hook
+    try:
+        xcopy_histories(ctx, 25 if ctx.tier == 'quick' else 600, 2 if ctx.tier == 'quick' else 30)
+    finally:
+        sys.unraisablehook = old_hook
+        ctx.flush_model()
+        ctx.driver = saved
+
+
 def check_C08(ctx):
     rng = ctx.rng
     ctx.driver = 'ddvauto'
@@ -791,7 +1006,7 @@ def check_C08(ctx):
         # 2. dynamic reordering on (threshold lowered so that it fires inside operations)
         n = 0
         for k in range(100 if quick else 1500):
-            if ctx.time_left() < (18 if quick else 60):
+            if ctx.time_left() < (24 if quick else 90):
                 ctx.notes.append('dynamic histories cut by time budget')
                 break
             nv = rng.randint(3, 7)
@@ -812,6 +1027,8 @@ def check_C08(ctx):
             h.finish('C08 dyn')
             n += 1
         ctx.count('histories:dyn', n)
+        # 2b. `dd._copy.copy_bdd` / `copy_bdds_from` over autoref, target reordering or not
+        xcopy_histories(ctx, 30 if quick else 800, 8 if quick else 40)
         # 3. shutdown with Functions still alive must be refused by the manager
         for k in range(5 if quick else 40):
             h = AHistory(ctx, UNIVERSE[:3])
@@ -834,8 +1051,14 @@ REGISTRY = {
             'random histories over dd.autoref (constructions, operators incl. <= < == !=, succ/low/high, '
             'second Functions on a node (copy.copy = Function.__copy__, _add_int, copy_bdd; copy.deepcopy and '
             'pickling of Functions are out of scope), drops in random order, collections, sifting and given orders, '
-            'dynamic reordering off/on with lowered threshold, two managers, rejected calls); after every '
+            'dynamic reordering off/on with lowered threshold, two managers, rejected calls; dd._copy.copy_bdd / '
+            'copy_bdds_from into a target with reordering enabled and a low threshold, duplicate / complemented / '
+            'constant roots, aliased results, the source counters during and after the call); after every '
             'step: truth table of every live Function, count = in-edges + live Functions (+1 terminal), '
             'registry vs real objects, no exception inside __del__; at the end: drop all, collect, shutdown '
             'check; exact state (counts, handles) compared with the Lean model after every operation'),
 }
+
+# the `dd._copy` generator also runs under C11 (replayed on this slice's driver)
+EXTRAS = {'C11': [extra_C11_xcopy]}
+EXTRA_DRIVERS = ['ddvauto']
